@@ -7,6 +7,8 @@ verus! {
 //@include shims/core.rs
 //@include shims/alloc_free.rs
 //@include shims/cursor.rs
+//@include shims/asref.rs
+//@include shims/codecs.rs
 //@enum BSVErrors @ src/errors/mod.rs
 //@include spec/hash.rs
 //@enum OpCodes @ src/script/op_codes.rs clone copy partialeq eq
